@@ -63,14 +63,21 @@ func main() {
 	sites := 0
 	report := map[string]interface{}{}
 	var rangeSites []string
+	scs := map[*packages.Package]*schedInfo{}
+	if mode == "sched" {
+		// first pass over all packages: which fields are ever written through a pointer
+		for _, p := range pkgs {
+			if len(p.Errors) > 0 {
+				fail("package %s: %v", p.PkgPath, p.Errors)
+			}
+			scs[p] = analyseSched(p)
+		}
+	}
 	for _, p := range pkgs {
 		if len(p.Errors) > 0 {
 			fail("package %s: %v", p.PkgPath, p.Errors)
 		}
-		var sc *schedInfo
-		if mode == "sched" {
-			sc = analyseSched(p)
-		}
+		sc := scs[p]
 		for i, f := range p.Syntax {
 			path := p.CompiledGoFiles[i]
 			changed := false
